@@ -149,6 +149,11 @@ def do_check(pid, tier, seed, args, t0):
     verify.solve(reports, timeout_ms=timeout_ms)
     solver_wall = time.time() - ts
 
+    # small-size refuter: obligations that are open (undecided, or sat with a model that does not
+    # replay) are re-generated with every array dimension fixed to a small concrete size, where they
+    # are quantifier-free; a model found there is a concrete input that is replayed on the real code
+    refuter_notes = small_size_refuter(pid, M, contracts, reports, timeout_ms, known)
+
     functions = []
     n_obl = n_dis = 0
     by_backend = {}
@@ -181,14 +186,16 @@ def do_check(pid, tier, seed, args, t0):
                     samples.append({"obligation": ob.name, "status": "discharged", "backend": ob.backend,
                                     "smt2_head": _smt_head(ob)})
             elif ob.status == "refuted":
-                handle_refuted(pid, M, rep, ob, known, violations, known_hits)
+                handle_refuted(pid, M, rep, ob, known, violations, known_hits, refuter_notes.get(ob.name), keep_first=True)
+            elif ob.name in refuter_notes:
+                handle_refuted(pid, M, rep, ob, known, violations, known_hits, refuter_notes[ob.name])
             else:
                 undecided.append(f"{ob.name}: {ob.reason}")
             if args.verbose:
                 print(f"  {ob.status:10s} {ob.backend or '-':5s} {ob.time:6.2f}s {ob.name}  {ob.reason}")
 
     # witnesses (cover): the real function satisfies the contract on a concrete input
-    wit = run_witnesses(pid, M, contracts)
+    wit = run_witnesses(pid, M, contracts, seed, tier)
     for w in wit["failures"]:
         k = match_known(known, pid, w["obligation"], w.get("inputs"))
         if k:
@@ -306,9 +313,47 @@ def _smt_head(ob):
         return ""
 
 
-def handle_refuted(pid, M, rep, ob, known, violations, known_hits):
+def small_size_refuter(pid, M, contracts, reports, timeout_ms, known):
+    from pyvc import verify
+    notes = {}
+    todo = {}
+    for rep in reports:
+        if rep.target == "<spec lemmas>" or rep.not_found:
+            continue
+        for ob in rep.obligations:
+            if ob.status in ("undecided", "refuted"):
+                todo.setdefault((rep.label, rep.instance), []).append(ob)
+    if not todo:
+        return notes
+    for c in contracts:
+        for (label, inst), obs in todo.items():
+            if c.short != label:
+                continue
+            for n in (2, 3):
+                try:
+                    reps2 = verify.verify_contract(pid, c, sizes={"*": n}, only_instance=inst)
+                except Exception:
+                    continue
+                verify.solve(reps2, timeout_ms=min(timeout_ms, 20000))
+                for r2 in reps2:
+                    for o2 in r2.obligations:
+                        if o2.status != "refuted" or o2.model is None:
+                            continue
+                        for ob in obs:
+                            if ob.name == o2.name and ob.name not in notes:
+                                notes[ob.name] = {"model": o2.model, "size": n, "reason": o2.reason}
+                if all(ob.name in notes for ob in obs):
+                    break
+    return notes
+
+
+def handle_refuted(pid, M, rep, ob, known, violations, known_hits, small=None, keep_first=False):
     """sat: write the replay file, replay on the real code, classify."""
     name = ob.name
+    if small is not None and not keep_first:
+        ob.model = small["model"]
+        ob.reason = (ob.reason or "") + f" | refuted at concrete array size {small['size']}: {small['reason']}"
+        small = None
     safe = name.replace("/", "_").replace("[", "_").replace("]", "_")
     rp = os.path.join("replays", f"{safe}.p{ob.meta.get('path', 0)}.json")
     rec = {"property": pid, "obligation": name, "target": rep.target, "instance": rep.instance, "label": getattr(rep, "label", None),
@@ -325,6 +370,22 @@ def handle_refuted(pid, M, rep, ob, known, violations, known_hits):
         except Exception as e:
             res = {"verdict": "error", "error": str(e)}
     rec["replay_result"] = res
+    if not confirmed and small is not None:
+        # second attempt: the counterexample found at a small concrete array size
+        rec2 = dict(rec)
+        rec2["inputs"] = small["model"]
+        rec2["solver"] = {"backend": "z3", "output": f"refuted at concrete array size {small['size']}: {small['reason']}"}
+        with open(os.path.join(HERE, rp), "w") as f:
+            json.dump(rec2, f, indent=1, default=str)
+        try:
+            res2 = run_replay_file(os.path.join(HERE, rp))
+        except Exception as e:
+            res2 = {"verdict": "error", "error": str(e)}
+        if res2.get("verdict") == "fails":
+            confirmed, rec = True, rec2
+            ob.model = small["model"]
+        rec["replay_result"] = res2 if confirmed else res
+        rec["replay_result_small_size"] = res2
     with open(os.path.join(HERE, rp), "w") as f:
         json.dump(rec, f, indent=1, default=str)
     k = match_known(known, pid, name, ob.model)
@@ -340,13 +401,13 @@ def handle_refuted(pid, M, rep, ob, known, violations, known_hits):
     violations.append({"obligation": name, "replay": rp, "confirmed": confirmed})
 
 
-def run_witnesses(pid, M, contracts):
+def run_witnesses(pid, M, contracts, seed=0, tier="quick"):
     """Evaluates every contract's witnesses on the real code (one subprocess)."""
     out = {"count": 0, "failures": [], "errors": [], "samples": []}
-    if not any(c.witness for c in contracts):
+    if not any(c.witness or c.options.get("samples") for c in contracts):
         return out
-    p = subprocess.run([sys.executable, "-m", "pyvc.witness", M.__name__], capture_output=True, text=True,
-                       cwd=HERE, env=_env(), timeout=3000)
+    p = subprocess.run([sys.executable, "-m", "pyvc.witness", M.__name__, str(seed), tier], capture_output=True, text=True,
+                       cwd=HERE, env=_env(), timeout=6000)
     got = False
     for line in p.stdout.splitlines():
         if line.startswith("WITNESS "):
@@ -356,7 +417,7 @@ def run_witnesses(pid, M, contracts):
             if len(out["samples"]) < 3:
                 out["samples"].append({"witness_of": r["target"], "inputs": r.get("inputs_repr", "")[:300], "verdict": r["verdict"]})
             if r["verdict"] == "fails":
-                name = f"{pid}.{r['target'].split('::')[1]}.witness{r['index']}"
+                name = f"{pid}.{r.get('label') or r['target'].split('::')[1]}.witness{r['index']}"
                 rp = os.path.join("replays", f"{name}.json")
                 with open(os.path.join(HERE, rp), "w") as f:
                     json.dump(r, f, indent=1, default=str)
